@@ -89,7 +89,9 @@ def rand_slice(rng, nflow):
 
 
 def rand_simple(rng):
-    k = rng.choice(["call", "call", "var", "filter"])
+    k = rng.choice(["call", "call", "call", "var", "var", "filter", "filter", "filtersel"])
+    if k == "filtersel":
+        return ["filtersel", rng.choice(PREDN), rng.choice([2, 3, 4])]
     if k == "call":
         return ["call", rng.choice(CALLS)]
     if k == "var":
@@ -683,15 +685,17 @@ def expect(adapter, el, r):
         return lambda t: [result_of(lambda: getattr(t, name)(v)) for v in VALUES]
     if adapter == "SourceEl":
         name = r["name"]
+        # the source is asked twice (a Source called twice, or feeding two analyses): the
+        # adapter must give each time what the wrapped method / iterable gives each time
         if name == ABSENT:
             if callable(el):
-                return lambda t: [result_of(lambda: list(t()))]
+                return lambda t: [result_of(lambda: list(t())) for _ in range(2)]
             if hasattr(el, "__iter__"):
-                return lambda t: [result_of(lambda: list(iter(t)))]
+                return lambda t: [result_of(lambda: list(iter(t))) for _ in range(2)]
             return None
         if cm(el, name) is None:
             return None
-        return lambda t: [result_of(lambda: list(getattr(t, name)()))]
+        return lambda t: [result_of(lambda: list(getattr(t, name)())) for _ in range(2)]
     if adapter == "Run":
         name = r["name"]
         if name == ABSENT:
@@ -846,7 +850,7 @@ def drive(adapter, ad, r):
     if adapter == "Call":
         return [result_of(lambda: ad(v)) for v in VALUES]
     if adapter == "SourceEl":
-        return [result_of(lambda: list(ad()))]
+        return [result_of(lambda: list(ad())) for _ in range(2)]
     if adapter == "Run":
         return [result_of(lambda: ad.run(iter(flow_values())))]
     if adapter == "FillInto":
